@@ -54,6 +54,7 @@ class World:
         self.cancel_now = []
         self.between_seams = None  # hook() called at each seam event of an invocation (C07 interleaving)
         self.pool = None
+        self.local = None
         self.states_seen = set()
 
     # ------------------------------------------------------------------ life cycle
@@ -76,6 +77,8 @@ class World:
                                    acct_lag=kn.get("acct_lag", False))
             self.cluster.on_command = self._cmd_seam
             self.cluster.after_command = self._cmd_after
+            self.cluster.on_accept = self._note_accepted
+            self.cluster.on_start = self._note_start
             FakePopen.cluster = self.cluster
             if self.backend == "slurm" and kn.get("sacct_batch"):
                 import gwf.backends.slurm as S
@@ -87,11 +90,22 @@ class World:
             from .sock import Hub, SocketProxy, TimeProxy
 
             self.cluster = MultiCluster(self.trace, kn.get("first_id", 1000))
+            self.cluster.on_accept = self._note_accepted
             self.cluster.on_command = self._cmd_seam
             self.cluster.after_command = self._cmd_after
             FakePopen.cluster = self.cluster
             self.hub = Hub()
             SocketProxy.hub = self.hub
+            TimeProxy.clock = self.clock
+        elif self.backend == "local":
+            from .localw import LocalAdapter
+            from .sock import SocketProxy, TimeProxy
+
+            self.cluster = None
+            self.job_gen = {}
+            self.pool_running = False
+            self.local = LocalAdapter(self, kn.get("cores", 2))
+            SocketProxy.hub = self.local
             TimeProxy.clock = self.clock
         else:
             self.cluster = None
@@ -122,8 +136,8 @@ class World:
             import gwf.backends.slurm as S
 
             S.SlurmOps.get_job_states_from_sacct_batched.__defaults__ = self._saved_defaults
-        if self.pool is not None:
-            self.pool.__exit__(None, None, None)
+        if self.local is not None:
+            self.local.stop()
         shutil.rmtree(self.base, ignore_errors=True)
         return False
 
@@ -156,7 +170,7 @@ class World:
     # ------------------------------------------------------------------ seams
     def _seam_event(self, kind, detail):
         """Common bookkeeping of one seam event of the current invocation."""
-        if not self.in_invocation:
+        if not self.in_invocation or getattr(self, "pool_running", False):
             return
         if self.frozen:
             raise SimKill()
@@ -178,7 +192,8 @@ class World:
 
     def _fs_seam(self, kind, rel, **kw):
         self._seam_event("fs:" + kind, rel)
-        if self.io_fault is not None and self.in_invocation and self.io_fault[0] == self.seam_count:
+        if self.io_fault is not None and self.in_invocation and not getattr(self, "pool_running", False) \
+                and self.io_fault[0] == self.seam_count:
             err = self.io_fault[1]
             self.io_fault = None
             self.fault("io_error")
@@ -224,17 +239,16 @@ class World:
             self.in_invocation = False
             self.kill_at = self.intr_at = self.io_fault = None
         self.n_invocations += 1
+        if self.local is not None:
+            self.local.pump()
         res.seams = self.seam_count
         res.faulted = bool(kill_at or intr_at or io_fault or cmd_faults)
         # jobs accepted from this invocation (ground truth, whatever gwf saw of them)
-        res.accepted = []
+        res.accepted = list(self.accepted_now)
         res.cancel_requests = []
+        res.cmd_log = []
         if self.cluster:
-            for jid in self.cluster.order[n_jobs_before:]:
-                j = self.cluster.jobs[jid]
-                if j.from_gwf and not j.foreign:
-                    res.accepted.append((j.name, j.id, list(j.deps)))
-                    self._note_accepted(j)
+            res.accepted = list(self.accepted_now)
             for seq, what, jid, name in self.cluster.journal[journal_before:]:
                 if what == "cancel":
                     res.cancel_requests.append(jid)
@@ -251,10 +265,53 @@ class World:
         return res
 
     def _note_accepted(self, j):
-        self.latest[j.name] = j.id
+        """Called at the instant the scheduler accepts a submission (ground truth M_truth)."""
+        if not getattr(j, "from_gwf", True) or getattr(j, "foreign", False):
+            return
         t = self.model.targets.get(j.name)
         outs = list(t.outputs) if t is not None else []
-        self.job_model[j.id] = dict(outputs=outs, name=j.name)
+        # jobs that are producing this target's inputs right now (C07): latest jobs of the direct
+        # dependencies that are still pending or running
+        producers = []
+        if t is not None:
+            for d in self.model.deps(j.name):
+                pj = self.latest.get(d)
+                if pj is not None and self.job_phase(pj) in ("pending", "running"):
+                    producers.append(pj)
+        self.job_model[j.id] = dict(outputs=outs, name=j.name, producers=producers)
+        self.latest[j.name] = j.id
+        self.accepted_now.append((j.name, j.id, list(j.deps)))
+
+    def job_phase(self, jid):
+        if self.cluster is not None:
+            j = self.cluster.jobs.get(jid)
+            return j.phase if j is not None else None
+        return self.local.phase(jid) if self.local is not None else None
+
+    def job_result(self, jid):
+        if self.cluster is not None:
+            j = self.cluster.jobs.get(jid)
+            return j.result if j is not None else None
+        return self.local.result(jid) if self.local is not None else None
+
+    def _note_start(self, j):
+        """C07 invariant at every job start: every job that was producing the target's inputs when it
+        was submitted has finished - successfully on Slurm, LSF and the local pool."""
+        info = self.job_model.get(j.id)
+        if info is None:
+            return
+        self.probe("job_starts_checked")
+        for pj in info["producers"]:
+            self.probe("job_starts_with_producers")
+            ph = self.job_phase(pj)
+            if ph != "done":
+                self.flag("C07", "started_before_producer_finished",
+                          f"job {j.id} ({info['name']}) starts while job {pj}, which was producing its input when it was "
+                          f"submitted, is {ph}")
+            elif self.backend != "sge" and self.job_result(pj) != "ok":
+                self.flag("C07", "started_after_producer_failed",
+                          f"job {j.id} ({info['name']}) starts although job {pj} producing its input ended "
+                          f"{self.job_result(pj)}")
 
     # ------------------------------------------------------------------ reference models
     def stat_ns(self, rel):
@@ -293,7 +350,7 @@ class World:
             return "none"
         if self.cluster is not None:
             return self.cluster.observable(jid)
-        return self.pool_observable(jid)
+        return self.local.observable(jid)
 
     def m_status(self):
         """name -> status string, or None where the statement does not pin it (unpinned codes)."""
@@ -501,6 +558,8 @@ class World:
                 if self.knobs.get("tick_per_op"):
                     self.clock.advance(self.knobs["tick_per_op"] * self.clock.TICK)
         logdir = self.path(".gwf/logs")
+        if self.local is not None:
+            return  # the pool writes the logs itself
         if os.path.isdir(logdir) and self.knobs.get("log_mode", "full") != "none":
             self.fs.world_write(os.path.join(logdir, j.name + ".stdout"), f"out of {j.id}\n".encode())
             if self.knobs.get("log_mode", "full") == "full":
